@@ -22,7 +22,8 @@ func init() {
 			"{0,3,8,15}), PLANE-1 (planes read in the published order positions, alphas, colours, scales, rotations, SH, linked to the mesh attributes " +
 			"they become), SYM-BYTES (plane sizes 9N/6N, N, 3N, 3N, 3N, 3·N·shDim), SYM-STRIDE (affine subscripts cover each plane exactly once; record i " +
 			"→ output i; component k from bytes k·w..k·w+w−1), every output array is make(…, NumPoints), SIGN-1 (24-bit little-endian assembly with shifts " +
-			"0/8/16, sign test 1<<23, extension mask 0xff000000). PLY export: LAY-2 between SplatPly.Write's property names / Float types and the default " +
+			"0/8/16, sign test 1<<23, extension mask 0xff000000), DEQ-1 (published dequantisation maps per plane as linear chains: colours /255 −0.5 /0.15, " +
+			"scales /16 −10, rotations /127.5 −1, SH −128 /128, positions ·1/(1<<FractionalBits)), HALF-1 (binary16 bit fields). PLY export: LAY-2 between SplatPly.Write's property names / Float types and the default " +
 			"reader's splat properties. Layout exactness for every count / SH degree (strides symbolic); value tolerances, clamping and half-float " +
 			"arithmetic are not decided.",
 		Assumptions: []string{
